@@ -30,6 +30,7 @@ type Config struct {
 	MaxSteps  int64   // scheduler decisions cap
 	MaxSim    time.Duration
 	Horizon   time.Duration // idle for this long with nothing enabled => deadlock
+	LivelockSteps int64     // this many scheduler steps without the simulated clock advancing => livelock
 	KeepLog   bool          // keep the textual event log (else only hashed)
 	Record    bool          // record the choice tape
 	Replay    *Tape         // replay from this tape instead of the seed
@@ -58,6 +59,7 @@ type Result struct {
 	SimTime     time.Duration
 	Tasks       int
 	Deadlock    bool
+	Livelock    bool // too many steps at one simulated instant
 	StepCap     bool
 	SimCap      bool
 	Blocked     []string // tasks not done at end of run (before shutdown): "name @ site"
@@ -103,7 +105,10 @@ func (t *Task) Name() string { return t.name }
 // Sim is one simulated run.
 type Sim struct {
 	cfg        Config
-	tasks      []*Task
+	tasks      []*Task // live tasks in creation order (finished ones are compacted away)
+	nTasks     int
+	sameInstant int64
+	lastNow    time.Time
 	cur        *Task
 	last       *Task
 	schedTask  *Task
@@ -165,6 +170,9 @@ func Run(t *testing.T, cfg Config, root func()) (res *Result) {
 	if cfg.SiteMask == 0 {
 		cfg.SiteMask = ^uint64(0)
 	}
+	if cfg.LivelockSteps == 0 {
+		cfg.LivelockSteps = 300_000
+	}
 	s := &Sim{cfg: cfg}
 	for i := range s.rng {
 		s.rng[i] = NewRng(cfg.Seed, i)
@@ -216,7 +224,7 @@ func Run(t *testing.T, cfg Config, root func()) (res *Result) {
 	s.res.Switches = s.switches
 	s.res.Yields = s.yields
 	s.res.Parks = s.parks
-	s.res.Tasks = len(s.tasks)
+	s.res.Tasks = s.nTasks
 	s.res.LogHash = s.logh
 	s.res.SchedHash = s.schedh
 	if cfg.Record {
@@ -263,7 +271,8 @@ func (t *Task) where() string {
 }
 
 func (s *Sim) newTask(name string) *Task {
-	t := &Task{id: len(s.tasks), name: name, baton: make(chan struct{})}
+	t := &Task{id: s.nTasks, name: name, baton: make(chan struct{})}
+	s.nTasks++
 	t.state.Store(stParked)
 	if s.cfg.Policy == PolicyPCT {
 		// random initial priority above all change-point priorities
@@ -310,9 +319,31 @@ func (s *Sim) loop(main *Task) {
 			s.endReason = "sim-cap"
 			return
 		}
+		if now.Equal(s.lastNow) {
+			s.sameInstant++
+			if s.cfg.LivelockSteps > 0 && s.sameInstant > s.cfg.LivelockSteps {
+				s.res.Livelock = true
+				s.endReason = "livelock"
+				return
+			}
+		} else {
+			s.lastNow, s.sameInstant = now, 0
+		}
 		enabled = enabled[:0]
 		var quiescers []*Task
 		var earliest time.Time
+		// compact finished tasks away (keeps creation order)
+		k := 0
+		for _, t := range s.tasks {
+			if t.state.Load() != stDone {
+				s.tasks[k] = t
+				k++
+			}
+		}
+		for i := k; i < len(s.tasks); i++ {
+			s.tasks[i] = nil
+		}
+		s.tasks = s.tasks[:k]
 		for _, t := range s.tasks {
 			if t.state.Load() != stParked {
 				continue
